@@ -30,6 +30,7 @@ hlib.encoded(X.SS.allocated_size, X.SS.get_available_space, X.SS.bucket_writer_c
              real_fileutil.get_available_space, real_fileutil.get_disk_stats)
 
 RS, CS = X.tok("R", 1), X.tok("C", 1)
+SI2 = b"\x00\x01" + b"\x00" * 14      # base32 'aaaq...': same prefix directory 'aa' as X.SI
 
 
 class _InProgress(object):
@@ -118,20 +119,31 @@ def _h_allocate(avail, readonly, n_inprog, s1, s2, size, x0, x1, x2, i0, i1, i2,
     return True
 
 
-def h_release(avail: int, size: int, ev: int, size2: int, avail2: int) -> bool:
+def h_release(avail: int, size: int, ev: int, size2: int, avail2: int, other_si: bool) -> bool:
     """
     pre: 0 <= avail and 1 <= size <= B["size_max"] and 2 * size <= avail and 0 <= ev <= 3
     pre: 1 <= size2 <= B["size_max"] and 0 <= avail2
     post: _ == True
     """
-    return X.guard(_h_release, avail, size, ev, size2, avail2)
+    return X.guard(_h_release, avail, size, ev, size2, avail2, other_si)
 
 
-def _h_release(avail, size, ev, size2, avail2):
+def _h_release(avail, size, ev, size2, avail2, other_si):
     ss, clock = _setup(avail, False, None, None, (False,) * 3, (False,) * 3)
-    already, writers = ss.allocate_buckets(X.SI, RS, CS, set([0, 1]), size)
-    if sorted(writers.keys()) != [0, 1] or ss.allocated_size() != 2 * size:
-        return "two allocations that fit were not both accepted and reserved"
+    if other_si:
+        # the second upload belongs to ANOTHER storage index with the same 2-character prefix directory (incoming/aa/...)
+        already, writers = ss.allocate_buckets(X.SI, RS, CS, set([0]), size)
+        already_b, writers_b = ss.allocate_buckets(SI2, RS, CS, set([0]), size)
+        other_incoming = "%s/%s/0" % (X.INCOMING, server_mod.storage_index_to_dir(SI2))
+        if sorted(writers.keys()) != [0] or sorted(writers_b.keys()) != [0]:
+            return "two allocations that fit were not both accepted"
+    else:
+        already, writers = ss.allocate_buckets(X.SI, RS, CS, set([0, 1]), size)
+        other_incoming = X.incoming_path(1)
+        if sorted(writers.keys()) != [0, 1]:
+            return "two allocations that fit were not both accepted"
+    if ss.allocated_size() != 2 * size:
+        return "two accepted allocations are not both reserved"
     bw = writers[0]
     if ev == 0:
         bw.close()
@@ -143,8 +155,12 @@ def _h_release(avail, size, ev, size2, avail2):
         bw.disconnected()
     if ss.allocated_size() != size:
         return "reservation not released when the upload completed / was aborted"
-    if sorted(ss._bucket_writers.keys()) != [X.incoming_path(1)]:
+    if sorted(ss._bucket_writers.keys()) != [other_incoming]:
         return "wrong writer removed from the in-progress table"
+    if not FS.os.path.exists(other_incoming):
+        return "ending one upload removed another upload's incoming file"
+    if not bw.closed or clock.timers[0].active():
+        return "ended upload is not marked closed / its timer is still pending"
     # the released space can be promised again: share 2, new free-space reading
     FS.fileutil.avail = avail2
     try:
